@@ -266,6 +266,7 @@ class Result:
         cov.update(self.counts)
         cov["obligations"] = nob
         cov["discharged"] = ndis
+        cov["obligation_names"] = [o[0][:160] for o in self.obligations]
         cov["failed_obligations"] = [f"{o[0]}: {o[2][:200]}" for o in self.obligations if not o[1]]
         ev = {"property_id": self.prop, "tier": self.tier, "seed": self.seed, "level": self.level,
               "coverage": cov, "assumptions": self.assumptions, "wall_s": round(wall, 1),
